@@ -6,6 +6,7 @@ import (
 	"strings"
 
 	"github.com/go-openapi/runtime"
+	"github.com/go-openapi/spec"
 	"github.com/go-openapi/swag"
 )
 
@@ -185,9 +186,33 @@ func (a *appGenerator) makeSerializers(mediaTypes []string, known func(string) (
 	return serializerGroups, supportsJSON
 }
 
+// withDefaultMedia adds the media type the runtime falls back to (application/json) when some
+// operation is left without any media type of its own, neither declared by the operation nor globally:
+// the serializers for that media type must be registered for such an operation to be served.
+func (a *appGenerator) withDefaultMedia(mediaTypes []string, mediaFor func(*spec.Operation) []string) []string {
+	if len(mediaTypes) == 0 {
+		return mediaTypes // makeSerializers falls back to JSON on its own
+	}
+	needsDefault := false
+	for _, o := range a.Operations {
+		if o.Op != nil && len(mediaFor(o.Op)) == 0 {
+			needsDefault = true
+		}
+	}
+	if !needsDefault {
+		return mediaTypes
+	}
+	for _, m := range mediaTypes {
+		if mediaMime(m) == runtime.JSONMime {
+			return mediaTypes
+		}
+	}
+	return append(mediaTypes, runtime.JSONMime)
+}
+
 func (a *appGenerator) makeConsumes() (GenSerGroups, bool) {
 	// builds a codegen struct from all consumes in the spec
-	return a.makeSerializers(a.Analyzed.RequiredConsumes(), func(media string) (string, bool) {
+	return a.makeSerializers(a.withDefaultMedia(a.Analyzed.RequiredConsumes(), a.Analyzed.ConsumesFor), func(media string) (string, bool) {
 		c, ok := knownConsumers[media]
 		return c, ok
 	})
@@ -195,7 +220,7 @@ func (a *appGenerator) makeConsumes() (GenSerGroups, bool) {
 
 func (a *appGenerator) makeProduces() (GenSerGroups, bool) {
 	// builds a codegen struct from all produces in the spec
-	return a.makeSerializers(a.Analyzed.RequiredProduces(), func(media string) (string, bool) {
+	return a.makeSerializers(a.withDefaultMedia(a.Analyzed.RequiredProduces(), a.Analyzed.ProducesFor), func(media string) (string, bool) {
 		p, ok := knownProducers[media]
 		return p, ok
 	})
